@@ -15,7 +15,7 @@ func init() {
 	register("C15", &propDef{
 		Title:           "Unpack materialises exactly what a well-formed archive says",
 		ConfigSensitive: true,
-		Rules:           []func(*Checker){ruleGate("C15.gate"), ruleC15Deferred, ruleC15Truncate, ruleMaterialise("C15.materialise"), ruleRestore("C15.restore"), ruleMeta("C15.meta"), ruleC01NoFollowAs("C15.lastwins")},
+		Rules:           []func(*Checker){ruleGate("C15.gate"), ruleC15Deferred, ruleC15Truncate, ruleMaterialise("C15.materialise"), ruleRestore("C15.restore"), ruleMeta("C15.meta"), ruleC01NoFollowAs("C15.lastwins"), ruleC15XHeader},
 		NotDecided: []string{
 			"the resulting tree for a given entry sequence (run-time fact)",
 			"the effect of the permission-retry branch (needs non-root execution)",
@@ -1136,4 +1136,67 @@ func ruleC02LinkTarget(c *Checker) {
 		})
 	}
 	c.check(n > 0, R, "-", "records link targets", "-", fmt.Sprintf("%d Linkname store(s)", n), "Pack no longer records link targets")
+}
+
+// C15.xheader — a PAX header record leaves no trace in the destination.
+func ruleC15XHeader(c *Checker) {
+	const R = "C15.xheader"
+	c.rule(R, "Partial evaluation of Unpack with the entry's type fixed to a PAX header record ('g' global, 'x' extended — archive/tar hands the global one to its caller under a name chosen by the writing program, GNU tar: $TMPDIR/GlobalHead.%n): no filesystem-mutating call is reachable for such an entry. Creating the parent directory of that name before looking at the type leaves a stray directory in the destination, or fails on a file of that name.", 2)
+	u := getUnpackCtx(c, R)
+	if u == nil {
+		return
+	}
+	p := c.P
+	ui := p.NamedType("unpackinfo", "UnpackInfo")
+	tf := fieldIndex(ui, "Typeflag")
+	for _, k := range []int{'g', 'x'} {
+		kv := absConst(constant.MakeInt64(int64(k)))
+		ev := p.newEvaluator(func(fn *ssa.Function, v ssa.Value) (absVal, bool) {
+			if isHeaderFieldLoad(v, "Typeflag") {
+				return kv, true
+			}
+			if fn == u.Unpack && v == u.Info {
+				return absVal{obj: &absStruct{fields: map[int]absVal{tf: kv}}}, true
+			}
+			return absVal{}, false
+		})
+		var params []absVal
+		for range u.Unpack.Params {
+			params = append(params, absTop)
+		}
+		r := ev.evalFunc(u.Unpack, params)
+		bad := ""
+		pos := p.Pos(u.Unpack.Pos())
+		// calls inside the entry loop only: what runs once per Unpack (deferred restores, the final drain) is not per entry
+		for ci := range r.Calls {
+			if ci.Parent() != u.Unpack && !p.family(u.Unpack)[ci.Parent()] {
+				continue
+			}
+			cls, s := classifyFS(calleeObj(ci))
+			if cls != "sink" {
+				continue
+			}
+			// entry-dependent: some path argument derives from the header or the info
+			dep := false
+			for _, ai := range s.PathArgs {
+				if ai >= len(ci.Common().Args) {
+					continue
+				}
+				for w := range p.backSlice(ci.Common().Args[ai], 1) {
+					if w == u.Info || w == ssa.Value(u.CtorCall) {
+						dep = true
+					}
+					if ld, ok := w.(*ssa.UnOp); ok && isHeaderFieldLoad(ld, "Name") {
+						dep = true
+					}
+				}
+			}
+			if !dep || !inLoop(ci.Block()) {
+				continue
+			}
+			bad = shortCallee(fullName(calleeObj(ci)))
+			pos = p.Pos(ci.Pos())
+		}
+		c.check(bad == "", R, p.FuncName(u.Unpack), fmt.Sprintf("no filesystem effect for a type %q record", rune(k)), pos, "no mutating call on the entry's path is reachable", bad+" on a path derived from the record's name is reachable for a PAX header record: unpacking the output of tar --format=posix --pax-option=… leaves a stray directory (tmp/ for GNU tar's /tmp/GlobalHead.1) in the destination, or fails when the slug has a file of that name")
+	}
 }
